@@ -182,6 +182,10 @@ def gen_area_case(rng, sph, force=None):
     spec['sentinel'] = sentinel
     spec['narrow'] = m0 is not None and (spec['m0'] > d0 or spec['m1'] < d1)
     f[kind + ' models'] = [m]
+    if kind == 'composition' and rng.random() < 0.5:
+        base = [wg.num(rng, 0.05, 1.0) for _ in range(3)]
+        f[kind + ' models'] = [{'model': 'uniform', 'compositions': [0, 1, 2], 'fractions': base}, m]
+        spec['base'] = base
     series_model = kind == 'temperature' and spec.get('name') in ('half space model', 'plate model', 'plate model constant age')
     if force is None and not series_model and rng.random() < 0.3 and not any(p[0] == 0.0 or p[1] == 0.0 for p in poly):
         # the FEATURE's own depth bounds as surfaces sampling an affine function (corners + one interior point): the model then works
@@ -350,7 +354,7 @@ def expected_area(spec, ctx, sx, sy, d):
         return out
     if kind == 'composition':
         for c in (0, 1, 2):
-            out[(2, c, 0)] = [spec['comps'].get(c, 0.0) if in_model else 0.0]
+            out[(2, c, 0)] = [spec['comps'].get(c, 0.0) if in_model else (spec['base'][c] if 'base' in spec else 0.0)]
         return out
     if kind == 'velocity':
         out[(5, 0, 0)] = list(spec['v']) if in_model else [0.0, 0.0, 0.0]
@@ -573,6 +577,12 @@ def gen_line_case(rng):
     f = dict(f)
     f.pop('composition models', None)
     f[kind + ' models'] = [m]
+    if kind == 'composition' and rng.random() < 0.5:
+        # a base model in front (all three compositions, whole body): outside its own range the model under test must leave these
+        # values alone; inside it overwrites the compositions it lists and (operation replace) clears the others
+        base = [wg.num(rng, 0.05, 1.0) for _ in range(3)]
+        f[kind + ' models'] = [{'model': 'uniform', 'compositions': [0, 1, 2], 'fractions': base, kmin: -1.0e7 if not fault else 0.0, kmax: 1.0e7}, m]
+        spec['base'] = base
     doc['features'] = [f]
     # points inside the body: on the profile, offset along the normal
     pts = []
@@ -632,7 +642,7 @@ def expected_line(spec, p):
     elif kind == 'composition':
         for c in (0, 1, 2):
             if not in_model:
-                out[(2, c, 0)] = [0.0]
+                out[(2, c, 0)] = [spec['base'][c] if 'base' in spec else 0.0]
             elif spec['name'] == 'uniform':
                 out[(2, c, 0)] = [spec['comps'].get(c, 0.0)]
             else:
